@@ -258,8 +258,13 @@ class Oracle:
                     return 'sat'
             except Reject:
                 continue
+        if q.id in core.CTX.__dict__.get('_cheap', ()):
+            return 'unknown'
         self.stats['smt'] += 1
-        st, model, _ = smt.check(conds, self.smt_timeout_ms, want_model=True)
+        rel = smt.relevant(conds[:-1], [q]) + [q]
+        st, model, _ = smt.check(rel, self.smt_timeout_ms, want_model=True)
+        if st == 'sat' and len(rel) < len(conds):
+            model = None        # a model of the relevant part only: not a full witness
         if st == 'unknown':
             self.stats['smt_unknown'] += 1
         if st == 'sat' and model and all(v is not None for v in model.values()):
@@ -297,6 +302,38 @@ def _valid_points(pool, conds):
     return out
 
 
+_MODEL_CACHE = {}
+FREE = {}
+
+
+def _model_points(hyps, pool):
+    """no pool point lies on this path: ask z3 for a model of the path condition
+    (exact rational model -> sample point), cached per path"""
+    key = tuple(h.id for h in hyps)
+    if key in _MODEL_CACHE:
+        return _MODEL_CACHE[key]
+    out = []
+    try:
+        # the path condition proper is the tail of hyps; solve it with the hypotheses relevant to it
+        aset = set(a.id for a in core.CTX.assume)
+        pc = [h for h in hyps if h.id not in aset]
+        # only the decisions that were genuinely open identify the path; forced ones are implied
+        pc = FREE.get(tuple(c.id for c in pc), pc)
+        rel = smt.relevant([h for h in hyps if h.id in aset], pc) + pc
+        st, model, _ = smt.check(rel, 2000, want_model=True)
+        if st == 'sat' and model and all(v is not None for v in model.values()):
+            base = {k: v for k, v in model.items() if core.CTX.atoms[k].get('defn') is None}
+            pt = Point(f'pathmodel{len(pool)}', base)
+            # equalities of the path condition hold exactly in the rational model; in floats they
+            # may come out "too close to call" (None), which is accepted here
+            if all(pt.eval(c) is not False for c in hyps):
+                out = [pt]
+    except Exception:
+        out = []
+    _MODEL_CACHE[key] = out
+    return out
+
+
 def _numeric_check(o, pts):
     """evaluate the obligation at sample points; returns a violating point or None"""
     for pt in pts:
@@ -324,6 +361,8 @@ def discharge(o, hyps, pool, budget_ms=20000):
     """-> dict(status, backend, seconds, witness, detail)"""
     t0 = time.time()
     pts = _valid_points(pool, hyps)
+    if not pts:
+        pts = _model_points(hyps, pool)
     bad = _numeric_check(o, pts)
     if bad is not None:
         pt, x, y = bad
@@ -488,6 +527,7 @@ def run_symbolic(contract, cfg, modules, seed=0, pool_size=6, max_paths=64, budg
         with shimmed(modules):
             for pc, out in ctrl.run(once):
                 per_path.append((pc, out))
+                FREE[tuple(c.id for c in pc)] = list(ctrl.last_free)
     except (EngineLimit, core.PathLimit) as e:
         run.error = f'{type(e).__name__}: {e}'
         run.stats = dict(ctrl.stats, seconds=time.time() - t0)
@@ -496,6 +536,7 @@ def run_symbolic(contract, cfg, modules, seed=0, pool_size=6, max_paths=64, budg
     assume = list(core.CTX.assume)
     DEADLINE['t'] = time.time() + time_cap_s
     DEADLINE['unknowns'] = 0
+    _MODEL_CACHE.clear()
     for pi, (pc, out) in enumerate(per_path):
         run.paths.append(dict(index=pi, decisions=len(pc), outcome=out[0],
                               pc=[core.show(c, 3) for c in pc[:12]]))
